@@ -186,6 +186,8 @@ def preflib_categorical_to_profile(instance: CategoricalInstance, tie_breaker: s
   IncompleteProfileWithTies
     The profile (Numpy matrix) format of the Preflib categorical instance.
   """
+  if instance.data_type != "cat":
+    raise ValueError("The inputted instance is not a categorical instance.")
   # This is essentially equal to a toi.
   arr = []
   for p in instance.preferences:
